@@ -22,6 +22,11 @@ def generate(rng, tier):
     n = 120 if tier == "quick" else 3000
     for _ci in range(n):
         yield gen_case(rng)
+    # every shape of mismatched list lengths, once per run for each tool that takes lists
+    for how in ("ragged", "poss", "iters_short", "iters_long", "names", "chans", "args"):
+        yield gen_case(rng, force=("repeat", how))
+    for which in (0, 1, 2, 3, 4):
+        yield gen_case(rng, force=("varying", which))
 
 
 def plain_element(rng, regs, SR, chans):
@@ -80,14 +85,16 @@ def variation(rng, SR, chans, meta, M, T):
     return c, seg, arg, vals
 
 
-def gen_case(rng):
+def gen_case(rng, force=None):
     regs = Regs()
     SR = rng.choice([100, 1000.0, 1e4])
     nch = rng.randint(1, 3)
     chans = rng.sample([1, 2, 3, "A", "chB"], nch)
     T = 20 / SR
     kind = rng.choice(["varying", "varying", "repeat", "linear"])
-    joint = kind == "varying" and len(chans) > 1 and rng.random() < 0.3
+    if force:
+        kind = force[0]
+    joint = kind == "varying" and len(chans) > 1 and rng.random() < 0.3 and not force
     if joint:
         e, prog, meta = plain_element(rng, regs, SR, chans)
         M = rng.randint(2, 5)
@@ -104,10 +111,14 @@ def gen_case(rng):
     if kind == "varying":
         s = regs.S()
         args = [[v[0] for v in vs], [v[1] for v in vs], [v[2] for v in vs], [v[3] for v in vs]]
-        bad = rng.random() < 0.15 and not joint
+        bad = (rng.random() < 0.15 and not joint) or bool(force)
         if bad:
             which = rng.randrange(4)
-            if which == 3 and Nv > 1:
+            if force:
+                which = force[1]
+            if which == 4:
+                args[3] = args[3][:-1]                                      # fewer value lists than addressed places
+            elif which == 3 and Nv > 1:
                 args[3] = [list(x) for x in args[3]]
                 args[3][0] = args[3][0][:-1] if M > 1 else args[3][0] + [0.5]
             else:
@@ -155,12 +166,14 @@ def gen_case(rng):
         poss = [rng.randint(1, L) for _ in range(Nv)]
         vs = [variation(rng, SR, chans, metas[p], M, T) for p in poss]
         s = regs.S()
-        bad = rng.random() < 0.15
+        bad = rng.random() < 0.15 or bool(force)
         a_poss = poss
         iters = [list(v[3]) for v in vs]
         a_ch, a_nm, a_ar = [v[0] for v in vs], [v[1] for v in vs], [v[2] for v in vs]
         if bad:
             how = rng.choice(["ragged", "poss", "iters_short", "iters_long", "names", "chans", "args"])
+            if force:
+                how = force[1]
             if how == "ragged" and Nv > 1:
                 iters[0] = iters[0][:-1] if M > 1 else iters[0] + [0.5]      # value lists of different lengths
             elif how == "iters_short":
